@@ -199,9 +199,14 @@ class Eval:
                             for d in dead:
                                 ed = dict(env)
                                 self.bind_pat(d["pat"], sc, ed)
+                                # an arm is reached when the (unguarded) arms written before it did not match
+                                before = [(("arm", sc, hq.pat_key(p_["pat"])), False) for p_ in mi["arms"][:mi["arms"].index(d)] if "guard" not in p_]
+                                for c_ in before:
+                                    self.conds.append(c_)
                                 self.conds.append((("arm", sc, hq.pat_key(d["pat"])), True))
                                 self.effect(d["body"], ed, depth)
-                                self.conds.pop()
+                                for _ in range(len(before) + 1):
+                                    self.conds.pop()
                                 envs.append((hq.pat_key(d["pat"]), ed))
                             a = live[0]
                             e_live = dict(env)
@@ -440,7 +445,26 @@ class Eval:
                 r = self.root_local(n["recv"])
                 if r is not None:
                     out.append(r)
+                elif n["method"] in MUTATORS and self.entry_chain(n["recv"]) is not None:
+                    out.append(self.entry_chain(n["recv"])[0])
         return out
+
+    def entry_chain(self, e):
+        """(local id, key expression) when e is `L.entry(KEY).or_default()` / `.or_insert_with(..)` / `.or_insert(..)`"""
+        cur = strip(e)
+        if cur.get("k") == "MethodCall" and cur.get("method") in ("or_default", "or_insert_with", "or_insert"):
+            inner = strip(cur["recv"])
+            if inner.get("k") == "MethodCall" and inner.get("method") == "entry" and len(inner.get("args", [])) == 1:
+                root = self.root_local(inner["recv"])
+                if root is not None:
+                    if cur["method"] != "or_default":
+                        # the bucket must start empty for this to be the grouping idiom
+                        a = strip(cur["args"][0]) if cur.get("args") else {}
+                        src = hq.render(a) if a else ""
+                        if not any(x in src for x in ("::new", "vec![]", "default")):
+                            return None
+                    return root, inner["args"][0]
+        return None
 
     def mut_ref_root(self, e):
         """local id L when e is `&mut L` (or L of type &mut T): bindings of a pattern matched against it alias parts of L"""
@@ -486,13 +510,15 @@ class Eval:
             if mac == "vec":
                 return self.vec_macro(e, env, depth)
             if mac == "format":
-                return ("format", hq.macro_template(e["mac_src"]), tuple(self.fmt_args(e, env, depth)))
+                a_ = tuple(self.fmt_args(e, env, depth))
+                return ("format", anon_names(hq.macro_template(e["mac_src"]), len(a_)), a_)
             if mac in ("write", "writeln"):
                 t = hq.macro_template(e["mac_src"])
                 if t is None:
                     # write!(f, include_str!(..)) and friends: keep the raw first argument
                     t = "<" + (hq.macro_args(e["mac_src"])[1] if len(hq.macro_args(e["mac_src"])) > 1 else "?") + ">"
-                w = ("write", t + ("\n" if mac == "writeln" else ""), tuple(self.fmt_args(e, env, depth)))
+                a_ = tuple(self.fmt_args(e, env, depth))
+                w = ("write", anon_names(t, len(a_)) + ("\n" if mac == "writeln" else ""), a_)
                 self.out.append((self.full_conds(), tuple(self.loops), w))
                 return w
             if mac in ("unreachable", "panic", "todo", "unimplemented"):
@@ -537,7 +563,8 @@ class Eval:
                     self.panics.append((self.full_conds(), e["mac"]))
                 return ("panic", e["mac"])
             if "mac_src" in e and e.get("mac") in ("format",):
-                return ("format", hq.macro_template(e["mac_src"]), tuple(self.fmt_args(e, env, depth)))
+                a_ = tuple(self.fmt_args(e, env, depth))
+                return ("format", anon_names(hq.macro_template(e["mac_src"]), len(a_)), a_)
             if "mac_src" in e and e.get("mac") == "vec":
                 return self.vec_macro(e, env, depth)
             env2 = env  # blocks share the environment (shadowing is by HirId, so this is safe)
@@ -559,12 +586,23 @@ class Eval:
             override = self.closure_args.pop(0) if self.closure_args else None
             for i_, p in enumerate(e["params"]):
                 bs = list(pat_bindings(p))
-                names.append("/".join(b["name"] for b in bs) or "_")
+                q = p
+                while q.get("p") in ("Ref", "Box", "Deref"):
+                    q = q["pat"]
+                plain = q.get("p") == "Bind" and "sub" not in q
                 if override is not None and i_ < len(override):
                     # the caller wants this closure specialised on concrete arguments
+                    names.append("/".join(b["name"] for b in bs) or "_")
                     self.bind_pat(p, override[i_], env2)
-                else:
+                elif plain or not bs:
+                    names.append("/".join(b["name"] for b in bs) or "_")
                     self.bind_pat(p, None, env2, default_param=True)
+                else:
+                    # a destructuring parameter `|(i, _)|`: one parameter, every binding the projection it names (so that applying the
+                    # closure to an element puts each component where the pattern takes it from)
+                    pn = "~" + "+".join(b["name"] for b in bs)
+                    names.append(pn)
+                    self.bind_pat(p, ("param", pn), env2)
             saved = self.returns
             self.returns = []
             body = self.expr(e["body"], env2, depth)
@@ -615,9 +653,14 @@ class Eval:
                 g = None
                 if "guard" in a:
                     g = self.expr(a["guard"], ea, depth)
+                # an arm that leaves the function is taken only when the (unguarded) arms written before it did not match: its exit says so
+                before = [(("arm", sc, hq.pat_key(p_["pat"])), False) for p_ in live[:live.index(a)] if "guard" not in p_] if diverges(a["body"], panics=False) else []
+                for c_ in before:
+                    self.conds.append(c_)
                 self.conds.append((("arm", sc, hq.pat_key(a["pat"])), True))
                 v = self.expr(a["body"], ea, depth)
-                self.conds.pop()
+                for _ in range(len(before) + 1):
+                    self.conds.pop()
                 key = hq.pat_key(a["pat"])
                 arms.append((key, v) if g is None else (key, ("guard", g), v))
                 envs.append((key, ea))
@@ -793,6 +836,13 @@ class Eval:
         else:
             args = [recv] + [self.expr(a, env, depth) for a in e["args"]]
         self._cur_env = env
+        ch = self.entry_chain(e["recv"]) if m in MUTATORS else None
+        if ch is not None:
+            # `map.entry(k).or_default().push(v)`: the bucket of k (created when missing) is updated in place
+            root, key_e = ch
+            env[root] = ("upd", env.get(root, ("unknown", "unbound")), "bucket", (self.expr(key_e, env, depth), m, tuple(args[1:])))
+            self.write_back(root, env)
+            return ("unit",)
         if m in MUTATORS:
             root = self.root_local(e["recv"])
             if root is not None and "&mut" in (e["recv"].get("ty_adj", "") + e["recv"].get("ty", "")):
@@ -1073,7 +1123,10 @@ def subst(t, mapping):
     if len(t) == 3 and t[0] == "closure":
         inner = {k: v for k, v in mapping.items() if k not in t[1] and not any(k in n.split("/") for n in t[1])}
         return ("closure", t[1], subst(t[2], inner))
-    return tuple(subst(x, mapping) for x in t)
+    r = tuple(subst(x, mapping) for x in t)
+    if len(r) == 3 and r[0] == "proj" and isinstance(r[2], tuple):
+        return proj_reduce(r[1], r[2])
+    return r
 
 
 def set_at(term, path, value):
@@ -1087,6 +1140,21 @@ def set_at(term, path, value):
         i = int(f)
         return ("list", tuple(set_at(v, path[1:], value) if j == i else v for j, v in enumerate(term[1])))
     return ("upd", term, "set@" + ".".join("%s.%s" % hf for hf in path), (value,))
+
+
+def anon_names(t, nargs):
+    """a format template with its named placeholders made positional (`{v}_g` -> `{}_g`): the name is a local's, not output.  Only when every
+    placeholder has its own argument (the arguments are in placeholder order then); `{x}{x}` / `{0}{0}` share one and are left as written"""
+    import re as _re
+    if not isinstance(t, str):
+        return t
+    parts = _re.split(r"(\{\{|\}\}|\{[^{}]*\})", t)
+    ph = [p_ for p_ in parts if p_.startswith("{") and p_.endswith("}") and p_ not in ("{{", "}}")]
+    names = [p_[1:-1].split(":")[0] for p_ in ph]
+    named = [n for n in names if n]
+    if len(ph) != nargs or len(set(named)) != len(named) or any(n.isdigit() for n in named):
+        return t
+    return "".join("{" + p_[1:-1][len(p_[1:-1].split(":")[0]):] + "}" if p_ in ph else p_ for p_ in parts)
 
 
 def anon_format(t):
